@@ -486,7 +486,7 @@ Proof. intros d rt cr [r [ok [H | H]]]; cbn in H; contradiction. Qed.
 Lemma table_current_ok : forallb (cell_ok current) all_cells = true.
 Proof. vm_compute. reflexivity. Qed.
 
-Lemma table_size : N.of_nat (length all_cells) = 13080%N.
+Lemma table_size : N.of_nat (length all_cells) = 13350%N.
 Proof. vm_compute. reflexivity. Qed.
 
 Lemma table_cells_ok : forall c, In c all_cells -> cell_ok current c = true.
@@ -721,5 +721,20 @@ Proof.
   - left. exists {| b_mid := 1; b_src := Some 2000; b_tgt := Some 2001 |}. split; [vm_compute; reflexivity | right; reflexivity].
   - vm_compute. reflexivity.
   - vm_compute. left. reflexivity.
+Qed.
+
+(* ------------------------------------------------------------------------------------------------
+   11. a mapping that stores NO secret: nothing a requester presents is "the mapping's secret"
+   ------------------------------------------------------------------------------------------------ *)
+Lemma no_stored_secret :
+  forall cfg d tun rt c r m,
+    d (tunnel_mid tun rt r) = Some m -> m_secret m = 0 -> r_secret r <> 0 ->
+    refused (open current cfg d tun rt c r) = true.
+Proof.
+  intros cfg d tun rt c r m Hd Hk Hs.
+  destruct (refused (open current cfg d tun rt c r)) eqn:Hr; [reflexivity|].
+  pose proof (entitledb_spec d c r _ (success_implies_entitled cfg d tun rt c r Hr)) as [_ [_ [_ [_ [m' [Hd' [_ [_ [_ Hor]]]]]]]]].
+  rewrite Hd in Hd'. injection Hd' as <-.
+  destruct Hor as [[_ H0] | [_ [Heq Hne]]]; [contradiction | rewrite Heq, Hk in Hne; contradiction].
 Qed.
 Close Scope N_scope.
